@@ -5,6 +5,7 @@ import (
 	"errors"
 	"fmt"
 	"io/fs"
+	"runtime"
 	"runtime/debug"
 	"sort"
 	"strings"
@@ -399,6 +400,10 @@ func runExec(p *Program, ref Reference, cfg ExecCfg, stats *Stats) (*Violation, 
 	ex := newExecState(cfg, stats)
 	simrt.SetPermHook(ex.perm)
 	defer simrt.SetPermHook(nil)
+	// should the code under test ever start goroutines (it does not today), their completion order
+	// must not matter either: every execution gets a seeded degree of real parallelism
+	prevProcs := runtime.GOMAXPROCS([]int{1, 2, 4, 8}[simrt.Derive(cfg.Seed, 0x9a)%4])
+	defer runtime.GOMAXPROCS(prevProcs)
 	simrt.StartClock(cfg.Seed) // every execution runs at its own simulated date and clock rate
 	defer func() {
 		if stats != nil {
